@@ -291,4 +291,17 @@ func (s *verifStack) gaugeOf(b *zzverif.Backend) int64 {
 	return 0
 }
 
+// gaugeOthers is the sum of the in-flight gauges of every backend but b; gaugeSum of all of them.
+func (s *verifStack) gaugeOthers(b *zzverif.Backend) int64 {
+	var n int64
+	for _, o := range s.backends {
+		if o != b {
+			n += s.gaugeOf(o)
+		}
+	}
+	return n
+}
+
+func (s *verifStack) gaugeSum() int64 { return s.gaugeOthers(nil) }
+
 var _ = testing.Short
